@@ -87,7 +87,19 @@ IsIdent(s) == /\ Len(s) >= 1 /\ s[1] = "l" /\ s[Len(s)] # "u"
 Idents == {s \in SeqsUpTo({"l", "d", "u"}, MaxLen + 2) : IsIdent(s)}
 IdentCases == \A s \in Idents : Emit([fn |-> "SnakeCamel", s |-> s, a |-> <<>>, out |-> s, valid |-> TRUE])
 
+\* The conversions are functions of their argument alone: converting y does not change what x converts to afterwards.
+\* Pairs x # y of the same shape that common 32-bit string hashes cannot tell apart (the runner searches a pair for
+\* each hash family), converted back to back in both orders - the inputs on which anything that remembers earlier
+\* results by a digest of the name goes wrong.
+HashFamilies == {"fnv1a32", "fnv132", "crc32", "crc32c", "adler32", "bkdr31", "bkdr131", "djb2", "sdbm", "elf", "murmur3_32"}
+PairShapes == { <<"l", "l", "l", "l", "u", "l", "l", "l", "l", "u", "l", "l", "l", "l">>,
+                <<"l", "l", "l", "l", "l", "l", "l", "l">>,
+                <<"l", "l", "l", "u", "l", "l", "d", "u", "l", "l", "l", "l", "l", "l", "l", "l", "l", "l", "l", "l">> }
+PairCases == \A h \in HashFamilies : \A sh \in PairShapes : IsIdent(sh) =>
+    Emit([fn |-> "SnakeCamelPair", s |-> sh, a |-> <<h>>, out |-> sh, valid |-> TRUE])
+
 ASSUME AllCases
+ASSUME PairCases
 ASSUME IdentCases
 ASSUME LongCases
 ASSUME HugeCases
